@@ -11,7 +11,7 @@ import (
 
 func init() {
 	register("C16", &propCheck{
-		explain: "Decides the TLS policy's shape: (R16.1) redirect and refusal are decided before the pause gate and end the request (shared with C07); redirect exactly when TLSEnabled && TLSRedirect && r.TLS==nil, refusal exactly when !TLSEnabled && r.TLS!=nil -> 503; (R16.2) the redirect Location is \"https://\" + host-part-of(r.Host) + r.URL.RequestURI() with status 301 and nothing else flows into it; (R16.3) a certificate is returned only as the direct result of service.certManager.GetCertificate for the service bound to the SNI name, under ServerName!=\"\", service!=nil, certManager!=nil (no caching layer), a manager exists only for TLSEnabled services, and the TLS listener uses Router.GetCertificate with no static pair; (R16.4) every autocert.Manager literal restricts HostPolicy to HostWhitelist(options.Hosts...) and is unreachable when any host contains '*'; the static pair needs both paths; (R16.5) sub-path inheritance is recomputed after every table rebuild, writes only non-root services' TLS flags from the root service of their first host or from the TLS-off default.",
+		explain:    "Decides the TLS policy's shape: (R16.1) redirect and refusal are decided before the pause gate and end the request (shared with C07); redirect exactly when TLSEnabled && TLSRedirect && r.TLS==nil, refusal exactly when !TLSEnabled && r.TLS!=nil -> 503; (R16.2) the redirect Location is \"https://\" + host-part-of(r.Host) + r.URL.RequestURI() with status 301 and nothing else flows into it; (R16.3) a certificate is returned only as the direct result of service.certManager.GetCertificate for the service bound to the SNI name, under ServerName!=\"\", service!=nil, certManager!=nil (no caching layer), a manager exists only for TLSEnabled services, and the TLS listener uses Router.GetCertificate with no static pair; (R16.4) every autocert.Manager literal restricts HostPolicy to HostWhitelist(options.Hosts...) and is unreachable when any host contains '*'; the static pair needs both paths; (R16.5) sub-path inheritance is recomputed after every table rebuild, writes only non-root services' TLS flags from the root service of their first host or from the TLS-off default.",
 		notDecided: []string{"TLS handshake behaviour of crypto/tls and autocert", "multi-host sub-path services follow their first host only (documented ambiguity)"},
 		run:        checkC16,
 	})
@@ -470,27 +470,48 @@ func r165(c *Ctx) {
 			}
 			// a flag read from a local copy of a whole options struct (`inherited := defaultServiceOptions; if root != nil
 			// { inherited = root.options }`) comes from each struct that was copied in
-			var expanded []src
-			for _, sv := range srcs {
-				ch, base := fieldPath(sv.v)
-				a, isLocal := base.(*ssa.Alloc)
-				if !isLocal || len(ch) != 1 || ch[0] != f {
-					expanded = append(expanded, sv)
-					continue
-				}
-				n := 0
-				for _, r := range *a.Referrers() {
-					if st, ok := r.(*ssa.Store); ok && st.Addr == ssa.Value(a) {
-						n++
-						// the same field of the struct copied in
-						expanded = append(expanded, src{&ssa.Field{X: st.Val, Field: fieldIndex(st.Val.Type(), f)}, st.Block()})
+			for level := 0; level < 4; level++ {
+				var expanded []src
+				grew := false
+				for _, sv := range srcs {
+					ch, base := fieldPath(sv.v)
+					a, isLocal := base.(*ssa.Alloc)
+					if !isLocal || len(ch) != 1 || ch[0] != f {
+						expanded = append(expanded, sv)
+						continue
+					}
+					n := 0
+					for _, r := range *a.Referrers() {
+						if st, ok := r.(*ssa.Store); ok && st.Addr == ssa.Value(a) {
+							n++
+							grew = true
+							// the same field of the struct copied in (which may itself be a local copy: next level)
+							val := st.Val
+							if u, isLoad := val.(*ssa.UnOp); isLoad && u.Op == token.MUL {
+								if a2, isLocal := u.X.(*ssa.Alloc); isLocal {
+									expanded = append(expanded, src{&ssa.UnOp{Op: token.MUL, X: &ssa.FieldAddr{X: a2, Field: fieldIndex(a2.Type(), f)}}, st.Block()})
+									continue
+								}
+							}
+							if phi, isPhi := val.(*ssa.Phi); isPhi {
+							// a struct chosen among several (`inherited := defaults; if root != nil { inherited = root.options }`)
+							for i, e := range phi.Edges {
+								expanded = append(expanded, src{&ssa.Field{X: e, Field: fieldIndex(e.Type(), f)}, phi.Block().Preds[i]})
+							}
+							continue
+						}
+						expanded = append(expanded, src{&ssa.Field{X: val, Field: fieldIndex(val.Type(), f)}, st.Block()})
+						}
+					}
+					if n == 0 {
+						expanded = append(expanded, sv)
 					}
 				}
-				if n == 0 {
-					expanded = append(expanded, sv)
+				srcs = expanded
+				if !grew {
+					break
 				}
 			}
-			srcs = expanded
 			srcOK := len(srcs) > 0
 			for _, sv := range srcs {
 				one := false
